@@ -893,6 +893,12 @@ func (e *symEnv) evalLoad(ld *ssa.UnOp) *term {
 		}
 		return tUnknown("captured " + a.Name())
 	case *ssa.Global:
+		// a package-level pattern compiled once: its value is what the initialiser computes
+		if iv := globalInitValue(a); iv != nil {
+			if call, ok := iv.(*ssa.Call); ok && strings.HasPrefix(calleeName(call.Common()), pkgGlob+".") {
+				return e.eval(call)
+			}
+		}
 		return &term{K: "sym", S: a.Name()}
 	case *ssa.IndexAddr:
 		return tOp("elem", e.eval(a.X))
@@ -1336,6 +1342,8 @@ func (e *symEnv) evalCall(call *ssa.Call) []*term {
 		return []*term{{K: "sym", S: "now"}}
 	case "(time.Time).Add":
 		return []*term{tOp("timeadd", e.eval(cc.Args[0]), e.eval(cc.Args[1]))}
+	case "(*regexp.Regexp).Copy":
+		return []*term{e.eval(cc.Args[0])} // an equal expression of its own
 	case "errors.Is":
 		return []*term{tOp("errIs", e.eval(cc.Args[0]), e.eval(cc.Args[1]))}
 	case "errors.New", "fmt.Errorf":
@@ -1816,4 +1824,31 @@ func canonCollectedStructs(t *term) *term {
 		}
 	}
 	return out
+}
+
+// globalInitValue: the value stored into a package-level variable by its package initialiser,
+// when that is the only store to it anywhere in the program's source functions.
+func globalInitValue(g *ssa.Global) ssa.Value {
+	if g.Pkg == nil || theProgram == nil {
+		return nil
+	}
+	var val ssa.Value
+	n := 0
+	for fn := range theProgram.AllFunctions() {
+		if fn.Blocks == nil || fn.Pkg != g.Pkg {
+			continue
+		}
+		allInstrs(fn, func(ins ssa.Instruction) {
+			if st, ok := ins.(*ssa.Store); ok && st.Addr == ssa.Value(g) {
+				n++
+				if fn.Name() == "init" {
+					val = strip(st.Val)
+				}
+			}
+		})
+	}
+	if n != 1 {
+		return nil
+	}
+	return val
 }
